@@ -27,6 +27,14 @@ def run(tier):
     behsc, exc = progs.drop_skipped(behsc, exc)
     check.cov["exhaustive_access_chains"] = len(behsc)
     behs, ex = behs + behsc, ex + exc
+    # + every constant expression (PHP 5 has a grammar of its own for them) with a derivation of <= 9 choices
+    cexpr = sorted(v["id"] for v in table0["variants"] if v["id"].startswith("static/") and v["fam"] == "both") + \
+        ["ScalarLnumber", "StmtStatic", "StmtStaticVar/init", "Name", "NamePart"]
+    tablek, behsk = syntax.generate(check, "5", rootcat="stmt", rootmax=1, depth=4, allowed=cexpr, exhaustive=True, maxchoices=9, timeout=2400)
+    exk = progs.expand_all(tablek, behsk, core.seed(), ["none"])
+    behsk, exk = progs.drop_skipped(behsk, exk)
+    check.cov["exhaustive_constant_expressions"] = len(behsk)
+    behs, ex = behs + behsk, ex + exk
     tasks, metas = [], []
     for i, (b, e) in enumerate(zip(behs, ex)):
         if not set(e["used"]) <= both:
